@@ -300,6 +300,148 @@ def p1_boundary(ctx: Ctx):
     ctx.check(isinstance(kwd.get('convert'), ast.Constant) and kwd['convert'].value is True, BYTE, sig, 'BytecodeInterpreter.eval', 'convert defaults to True', 'default changed')
 
 
+REWRITE_PREFIXES = ('fpy2/transform/', 'fpy2/strategies/')
+
+
+def _root_name(x: ast.AST) -> str | None:
+    while isinstance(x, (ast.Attribute, ast.Subscript)):
+        x = x.value
+    return x.id if isinstance(x, ast.Name) else None
+
+
+def e4_rewriters_store_into_their_own_syntax(ctx: Ctx):
+    """A transform hands back a new function and leaves the one it was given as it was: the program a user holds is
+    evaluated the same way before and after somebody transformed it.  Most rewriters only build nodes.  The few functions
+    that store into syntax *in place* (a statement list of a block, a field of a node -- found here, not listed) may do so
+    only to syntax the pass built itself: at each of their call sites, on every path, the object handed over was last
+    bound from a rebuilding call (a visitor's `_visit_*`, a node constructor, a transform's `apply`), and such an `apply`
+    never hands back its own argument."""
+    from ..cfg import CFG, describe_path, find_path
+    from ..lang import lang
+    repo = ctx.repo
+    L = lang(repo)
+
+    def node_typed(fn: ast.FunctionDef) -> set[str]:
+        out = set()
+        for a in fn.args.args + fn.args.kwonlyargs:
+            if a.annotation is not None and a.arg not in ('self', 'cls'):
+                names = {n.id for n in ast.walk(a.annotation) if isinstance(n, ast.Name)} - {'None'}
+                if names and names <= set(L.classes) and not isinstance(a.annotation, ast.Subscript):
+                    out.add(a.arg)
+        return out
+
+    def assigns_to(cfg, name: str):
+        return [n for n in cfg.nodes_of('stmt') if isinstance(n.ast, (ast.Assign, ast.AnnAssign)) and
+                any(isinstance(t, ast.Name) and t.id == name for t in (n.ast.targets if isinstance(n.ast, ast.Assign) else [n.ast.target]))]
+
+    checked_apply: dict[tuple[str, str], bool] = {}
+
+    def apply_is_fresh(rel: str, cname: str, meth: str) -> bool:
+        """No return of `K.<meth>` hands back a node-typed parameter as it came in."""
+        key = (rel, f'{cname}.{meth}')
+        if key in checked_apply:
+            return checked_apply[key]
+        ms = repo.methods(rel, cname)
+        if meth not in ms:
+            checked_apply[key] = False
+            return False
+        drel, _, fn = ms[meth]
+        cfg = CFG(fn)
+        params = node_typed(fn)
+        bad = None
+        for r in cfg.returns():
+            v = r.ast.value     # type: ignore
+            for x in ([v] if not isinstance(v, ast.Tuple) else v.elts):
+                if isinstance(x, ast.Name) and x.id in params:
+                    p = find_path(cfg, cfg.entry, r, avoid=lambda n, nm=x.id: n in assigns_to(cfg, nm))
+                    if p is not None and bad is None:
+                        bad = (r, x.id, p)
+        ctx.check(bad is None, drel, bad[0].ast if bad else fn, f'{cname}.{meth}', f'{cname}.{meth} hands back syntax it built, never the function it was given',
+                  f'`return {bad[1] if bad else ""}` hands the caller\'s own function back: a rewriter that then edits "its copy" in place edits the original '
+                  '(one-level inlining of a callee with nothing to rename turns the callee\'s `return e` into `t = e`, and every later call of the callee fails)',
+                  path=describe_path(bad[2], drel) if bad else None)
+        checked_apply[key] = bad is None
+        return bad is None
+
+    def fresh_value(rel: str, v: ast.AST) -> bool:
+        if not isinstance(v, ast.Call):
+            return False
+        n = call_name(v) or ''
+        if n in L.classes or n.startswith(('self._visit_', 'super()._visit_')):
+            return True
+        head, _, meth = n.rpartition('.')
+        if head and meth.startswith('apply') and '.' not in head:
+            res = repo.resolve(rel, head)
+            if res is not None and isinstance(repo.defnode(res), ast.ClassDef):
+                return apply_is_fresh(res[0], head, meth)
+        return False
+
+    n_helpers = 0
+    for rel in sorted(repo.modules):
+        if not rel.startswith(REWRITE_PREFIXES):
+            continue
+        fns = dict(repo.functions(rel))
+        for q, fn in fns.items():
+            typed = node_typed(fn)
+            if not typed:
+                continue
+            cfg = CFG(fn)
+            stored: set[str] = set()
+            for node in cfg.nodes_of('stmt'):
+                a = node.ast
+                roots = []
+                for t in (a.targets if isinstance(a, ast.Assign) else [a.target] if isinstance(a, (ast.AugAssign, ast.AnnAssign)) else []):
+                    roots += [_root_name(x) for x in ast.walk(t) if isinstance(x, (ast.Attribute, ast.Subscript)) and isinstance(x.ctx, ast.Store)]
+                for k in calls_in(a):
+                    if isinstance(k.func, ast.Attribute) and k.func.attr in MUTATORS and isinstance(k.func.value, (ast.Attribute, ast.Subscript)):
+                        roots.append(_root_name(k.func.value))
+                for r in roots:
+                    # the parameter still denotes the caller's node here unless it was rebound on every path
+                    if r in typed and find_path(cfg, cfg.entry, node, avoid=lambda n, nm=r: n in assigns_to(cfg, nm)) is not None:
+                        stored.add(r)
+            if not stored:
+                continue
+            n_helpers += 1
+            pos = {a.arg: i for i, a in enumerate(x for x in fn.args.args if x.arg not in ('self', 'cls'))}
+            short = q.split('.')[-1]
+            # call sites in the module (plain name, or self.<name> for a method)
+            for q2, f2 in fns.items():
+                cfg2 = None
+                for k in calls_in(f2):
+                    if call_name(k) not in (short, f'self.{short}'):
+                        continue
+                    for p_ in stored:
+                        arg = k.args[pos[p_]] if pos[p_] < len(k.args) else next((kw.value for kw in k.keywords if kw.arg == p_), None)
+                        root = _root_name(arg) if arg is not None else None
+                        if f2 is fn:
+                            alias = {p_}
+                            for _ in range(4):
+                                for s in ast.walk(fn):
+                                    if isinstance(s, ast.Assign) and len(s.targets) == 1 and isinstance(s.targets[0], ast.Name) \
+                                            and isinstance(s.value, (ast.Name, ast.Attribute, ast.Subscript)) and _root_name(s.value) in alias:
+                                        alias.add(s.targets[0].id)
+                            if root in alias:
+                                continue            # the helper recursing into the node it was handed
+                        if root is None:
+                            ctx.bad(rel, k, q2, f'{norm(k)[:60]}', f'`{short}` edits its `{p_}` in place and is handed a value that is not a local of the caller')
+                            continue
+                        cfg2 = cfg2 or CFG(f2)
+                        site = next((n for n in cfg2.nodes if n.ast is not None and n.kind in ('stmt', 'return', 'test') and any(x is k for x in ast.walk(n.ast))), None)
+                        if site is None:
+                            raise ShapeError(f'{q2}: call site of {short} not in the flow graph')
+                        defs = assigns_to(cfg2, root)
+                        stale = [d for d in defs if not fresh_value(rel, d.ast.value)]      # type: ignore
+                        fresh = [d for d in defs if d not in stale]
+                        p = find_path(cfg2, cfg2.entry, site, avoid=lambda n: n in fresh)
+                        for d in stale:
+                            p = p or find_path(cfg2, d, site, avoid=lambda n: n in fresh)
+                        ctx.check(p is None and bool(fresh), rel, k, q2, f'`{short}({norm(arg)[:30]}, ..)` edits in place syntax that `{q2.split(".")[-1]}` rebuilt first',
+                                  f'`{root}` can reach the call still denoting syntax the pass did not build (a callee\'s own body, the function being transformed): '
+                                  'the edit shows through to every holder of that function', path=describe_path(p, rel) if p else None)
+    if n_helpers < 1:
+        raise ShapeError('no in-place editing helper found among the rewriters (expected at least FuncInline._replace_ret)')
+
+
 def g1_captured_state(ctx: Ctx):
     """Captured containers live in the cached namespace: re-materialised per evaluation, or stores into them rejected."""
     repo = ctx.repo
@@ -405,6 +547,7 @@ RULES = [
     Rule('C18.E1b', 'long-lived objects do not write their own state after construction (cache keyed by FuncDef identity excepted)', e1b_object_state, 3, 'E'),
     Rule('C18.E2', 'evaluation code never stores into an object it was handed', e2_parameter_mutation, 700, 'E'),
     Rule('C18.E3', 'MPFR values are built and MPFR operations run only under a context the library sets (no ambient gmpy2 precision, rounding or exponent range)', g2_mpfr_context, 20, 'E'),
+    Rule('C18.E4', 'a rewriter edits in place only syntax it rebuilt; the rebuilding call never hands back its argument', e4_rewriters_store_into_their_own_syntax, 2, 'E'),
     Rule('C18.P1', 'the Python boundary rebuilds containers in both directions', p1_boundary, 8, 'P'),
     Rule('C18.G1', 'captured containers re-materialised per call; context is a local; MPFR settings scoped', g1_captured_state, 6, 'G,E'),
 ]
@@ -412,6 +555,11 @@ RULES = [
 from ..selftest import Mutant  # noqa: E402
 
 MUTANTS = [
+    Mutant('rename-with-nothing-to-rename-returns-its-input', 'fpy2/transform/rename_target.py', "        ast = _RenameTargetInstance(func, rename).apply()\n        if not isinstance(ast, FuncDef):",
+           "        if not rename:\n            return func\n        ast = _RenameTargetInstance(func, rename).apply()\n        if not isinstance(ast, FuncDef):", 'C18.E4',
+           'seeded change C18d: inlining a callee with no locals rewrites the callee\'s own `return`'),
+    Mutant('inliner-renames-only-when-there-is-something-to-rename', 'fpy2/transform/func_inline.py', "        ast = RenameTarget.apply(ast, subst)\n", "        if subst:\n            ast = RenameTarget.apply(ast, subst)\n", 'C18.E4'),
+    Mutant('lifted-bindings-stored-into-the-given-function', 'fpy2/transform/lift_context.py', "        func = super()._visit_function(func, ctx)\n        # prepend variable bindings", "        super()._visit_function(func, ctx)\n        # prepend variable bindings", 'C18.E4'),
     Mutant('captured-tuples-not-refreshed', BYTE, "            if isinstance(fn.__globals__.get(str(var)), list | tuple)", "            if isinstance(fn.__globals__.get(str(var)), list)", 'C18.G1',
            'seeded change C18a: a store into a list held by a captured tuple survives the call'),
     Mutant('active-context-in-global', BYTE, "        ctx = self._func_ctx(func.ast, ctx)\n        if convert:", "        global _ACTIVE_CTX\n        _ACTIVE_CTX = ctx = self._func_ctx(func.ast, ctx)\n        if convert:", 'C18.E1'),
